@@ -40,7 +40,7 @@ var Check = &run.Check{
 	ID:    "C19",
 	Level: "exploration",
 	Rule: "case = generated project: pom.xml (even index; 0-15 <dependency> in the project-level <dependencies>, children groupId/artifactId/version/scope/type/optional/classifier/exclusions in any order, " +
-		"comments, padded values, properties, dependencyManagement / plugin / profile dependencies and parent before and after) or build.gradle (odd index; one dependencies closure with 0-15 statements in " +
+		"comments, padded values, properties, dependencyManagement / plugin / profile dependencies, parent, reporting/build javadoc <links><link>, properties and ciManagement configuration with elements named like HTML void elements (link, param, base, meta, input, ...), licenses, scm, entity references, in any order before and after) or build.gradle (odd index; one dependencies closure with 0-15 statements in " +
 		"single-quoted, double-quoted, ${}-interpolated-version, parenthesised and parenthesised-with-closure string notation under 14 configurations, plus project(), fileTree() and map notation in command and " +
 		"parenthesised form; buildscript/plugins/apply/ext/repositories/configurations/android/test/task/jar blocks around; every script first passes coca's Groovy parser) + 0-6 Java files (class/interface, few " +
 		"enum/annotation types; main and test roots) importing a chosen subset of the declared groups (single-type, on-demand, static, group inside a longer package) plus near-miss and unrelated imports; " +
@@ -52,7 +52,8 @@ var Check = &run.Check{
 		"a <dependency> without <scope> may be reported with scope \"\" or \"compile\"",
 		"groupId/artifactId/scope contain no ${property}; interpolation appears only in versions, which are not asserted",
 		"a map-notation entry may be skipped (statement) or extracted correctly at its position; nothing else",
-		"one dependencies block and one build file per project; one coordinate per statement",
+		"one dependencies block per build file; one coordinate per statement",
+		"a project has one build file, or (2 of 16 cases) a pom.xml and a build.gradle side by side: the declared dependencies are those of both files; inside one file the report must keep declaration order, how the two files interleave is not decided (entries are attributed to their file by artifact id, which the generator keeps disjoint)",
 		"'occurs in an import' is substring containment in the qualified name written after import [static]",
 	},
 	Cases: cases,
@@ -111,8 +112,10 @@ func toDeps(in []core_domain.CodeDependency) []oracle.Dep {
 }
 
 func writeProject(dir string, p *buildgen.Project) (javaFiles []string, err error) {
-	if err = ioutil.WriteFile(filepath.Join(dir, p.Build.FileName), []byte(p.Build.Text), 0o644); err != nil {
-		return
+	for _, b := range p.Builds() {
+		if err = ioutil.WriteFile(filepath.Join(dir, b.FileName), []byte(b.Text), 0o644); err != nil {
+			return
+		}
 	}
 	for _, f := range p.Java {
 		path := filepath.Join(dir, filepath.FromSlash(f.Path))
@@ -182,50 +185,89 @@ func count(o *run.Outcome, prefix string, st oracle.DepStats) {
 	o.Count(prefix+"_other_section_entries_set_aside", st.SetAside)
 }
 
+// isDual: two of every sixteen indices (one pom-first, one gradle-first) are dual-build projects; with the CLI
+// stride being a multiple of 20, indices 20, 21, 100, 101, ... put dual projects through the dep main as well.
+func isDual(index int) bool { return index%16 == 4 || index%16 == 5 }
+
 func runCase(c *run.Ctx, o *run.Outcome) {
 	system := "maven"
 	if c.Index%2 == 1 {
 		system = "gradle"
 	}
-	p := buildgen.Generate(c.Rng.Fork(), system)
-	b := p.Build
+	dual := isDual(c.Index)
+	p := buildgen.Generate(c.Rng.Fork(), system, dual)
 	o.Shape = run.ShapeHash(p.ShapeKey())
 	o.Count(system+"_cases", 1)
+	if dual {
+		o.Count("dual_build_cases", 1)
+	}
 
-	expExtracted := oracle.ExpectedExtracted(b)
 	expUnused := oracle.ExpectedUnused(p)
+	expExtracted := map[string][]oracle.Dep{}
+	nDeclared := 0
 	styles := map[string]bool{}
 	optionalChildren := false
-	for _, e := range b.Entries {
-		styles[e.Style] = true
-		o.Count("entries_"+system+"_"+e.Style, 1)
-		o.Seen("notations", system+"/"+e.Style)
-		if e.Kind != buildgen.KindString {
-			o.Count("other_notation_entries_planted", 1)
+	for _, b := range p.Builds() {
+		expExtracted[b.FileName] = oracle.ExpectedExtracted(b)
+		nDeclared += len(expExtracted[b.FileName])
+		for _, e := range b.Entries {
+			styles[e.Style] = true
+			o.Count("entries_"+b.System+"_"+e.Style, 1)
+			o.Seen("notations", b.System+"/"+e.Style)
+			if e.Kind != buildgen.KindString {
+				o.Count("other_notation_entries_planted", 1)
+			}
+			if len(e.Children) > 3 {
+				optionalChildren = true
+			}
 		}
-		if len(e.Children) > 3 {
-			optionalChildren = true
+		depPos := -1
+		for i, l := range b.Layout {
+			o.Seen("sections", b.System+"/"+l)
+			if l == "dependencies" {
+				depPos = i
+			}
 		}
+		// sections with elements named like HTML void elements, by position relative to <dependencies>
+		for _, v := range b.VoidNamed {
+			o.Count("pom_void_named_sections_planted", 1)
+			for i, l := range b.Layout {
+				if l == v && depPos >= 0 && len(b.Entries) > 0 {
+					if i < depPos {
+						o.Count("pom_void_named_section_before_nonempty_dependencies", 1)
+					} else {
+						o.Count("pom_void_named_section_after_nonempty_dependencies", 1)
+					}
+				}
+			}
+		}
+		o.Count("other_section_entries_planted", len(b.Elsewhere))
 	}
-	for _, l := range b.Layout {
-		o.Seen("sections", system+"/"+l)
-	}
-	o.Count("declared_string_entries", len(expExtracted))
+	o.Count("declared_string_entries", nDeclared)
 	o.Count("expected_unused_entries", len(expUnused))
+	if dual {
+		o.Count("dual_declared_string_entries", nDeclared)
+		o.Count("dual_expected_unused_entries", len(expUnused))
+		if len(expUnused) > 0 && len(expUnused) < nDeclared {
+			o.Count("dual_cases_with_imported_and_unimported_entries", 1)
+		}
+	}
 	o.Count("java_files", len(p.Java))
 	for _, f := range p.Java {
 		o.Count("java_files_"+f.Kind, 1)
 		o.Count("imports_written", len(f.Imports))
 	}
-	o.Count("other_section_entries_planted", len(b.Elsewhere))
 	o.Seen("import_modes", p.Mode)
-	o.NonTrivial = len(expExtracted) >= 3 && len(expUnused) >= 1 && len(expUnused) < len(expExtracted) &&
+	o.NonTrivial = nDeclared >= 3 && len(expUnused) >= 1 && len(expUnused) < nDeclared &&
 		((system == "gradle" && len(styles) >= 2) || (system == "maven" && optionalChildren))
 
 	witness := map[string]interface{}{"project": p, "expected_extracted": expExtracted, "expected_unused": expUnused}
 	o.Witness = witness
 
-	if system == "gradle" {
+	for _, b := range p.Builds() {
+		if b.System != "gradle" {
+			continue
+		}
 		o.Count("generator_rejects", 0)
 		o.Count("groovy_parser_accepted", 1)
 		if ok, first := groovyAccepts(b.Text); !ok {
@@ -242,34 +284,41 @@ func runCase(c *run.Ctx, o *run.Outcome) {
 		o.SetInconclusive("cannot write the project: " + err.Error())
 		return
 	}
-	buildPath := filepath.Join(dir, b.FileName)
 
-	// 1. extraction
-	var extracted []core_domain.CodeDependency
-	var site string
-	if system == "maven" {
-		site = "AnalysisMaven"
-		panicked, val, frame := run.Guard(func() { extracted = deps.AnalysisMaven(buildPath) })
-		if panicked {
-			o.Violate("panic@"+frame, "deps.AnalysisMaven panicked: %s", val)
-			return
+	// 1. extraction, per build file
+	obsExtractedAll := map[string][]oracle.Dep{}
+	witness["observed_extracted"] = obsExtractedAll
+	for _, b := range p.Builds() {
+		b := b
+		var extracted []core_domain.CodeDependency
+		var site string
+		if b.System == "maven" {
+			site = "AnalysisMaven"
+			buildPath := filepath.Join(dir, b.FileName)
+			panicked, val, frame := run.Guard(func() { extracted = deps.AnalysisMaven(buildPath) })
+			if panicked {
+				o.Violate("panic@"+frame, "deps.AnalysisMaven panicked: %s", val)
+				return
+			}
+		} else {
+			site = "AnalysisGradleString"
+			panicked, val, frame := run.Guard(func() { extracted = deps.AnalysisGradleString(b.Text) })
+			if panicked {
+				o.Violate("panic@"+frame, "deps.AnalysisGradleString panicked: %s", val)
+				return
+			}
 		}
-	} else {
-		site = "AnalysisGradleString"
-		panicked, val, frame := run.Guard(func() { extracted = deps.AnalysisGradleString(b.Text) })
-		if panicked {
-			o.Violate("panic@"+frame, "deps.AnalysisGradleString panicked: %s", val)
-			return
+		obsExtracted := toDeps(extracted)
+		obsExtractedAll[b.FileName] = obsExtracted
+		o.Count("extracted_entries_observed", len(obsExtracted))
+		mm, st := oracle.CheckExtracted(b, obsExtracted)
+		count(o, "extracted", st)
+		for _, m := range mm {
+			o.Violate(m.Sig, "%s: %s", site, m.Msg)
 		}
 	}
-	obsExtracted := toDeps(extracted)
-	witness["observed_extracted"] = obsExtracted
-	o.Count("extracted_entries_observed", len(obsExtracted))
-	mm, st := oracle.CheckExtracted(b, obsExtracted)
-	count(o, "extracted", st)
-	for _, m := range mm {
-		o.Violate(m.Sig, "%s: %s", site, m.Msg)
-	}
+	var mm []oracle.DepMismatch
+	var st oracle.DepStats
 
 	// 2. unused report, in-process: nodes are built the way analysis/dep builds them
 	var unused []core_domain.CodeDependency
@@ -335,7 +384,11 @@ func runCase(c *run.Ctx, o *run.Outcome) {
 	}
 
 	if c.Index < 64 {
-		o.Sample = map[string]interface{}{"build_file": b.FileName, "text": b.Text, "java": p.Java, "observed_extracted": obsExtracted,
+		sample := map[string]interface{}{"build_file": p.Build.FileName, "text": p.Build.Text, "java": p.Java, "observed_extracted": obsExtractedAll,
 			"expected_unused": expUnused, "observed_unused": obsUnused}
+		if p.Second != nil {
+			sample["second_build_file"], sample["second_text"] = p.Second.FileName, p.Second.Text
+		}
+		o.Sample = sample
 	}
 }
